@@ -393,6 +393,21 @@ def case_slice_ll(col, p):
             r = getattr(fs, fn)()
             if getattr(r, 'folded', None) != folded or getattr(r, 'pop_ids', None) != ids:
                 col.violation('C09:%s:attributes' % fn, dict(p, folded=folded), {'folded': getattr(r, 'folded', None), 'pop_ids': getattr(r, 'pop_ids', None)})
+            if not np.array_equal(np.ma.getmaskarray(r), np.ma.getmaskarray(fs)):
+                col.violation('C09:%s:mask' % fn, dict(p, folded=folded), '')
+        if not folded:
+            # corners left unmasked on purpose (monomorphic classes kept): unary operations and the likelihood keep them
+            fu = dadi.Spectrum(base.copy(), pop_ids=ids, mask_corners=False)
+            for fn in ('log', 'copy'):
+                r = getattr(fu, fn)()
+                col.tick(transitions=1)
+                if np.ma.getmaskarray(r).any():
+                    col.violation('C09:%s:mask' % fn, dict(p, folded=folded, corners='unmasked'), {'masked': int(np.ma.getmaskarray(r).sum())})
+            du = dadi.Spectrum((base * 2 % 5).copy(), pop_ids=ids, mask_corners=False)
+            per = dadi.Inference.ll_per_bin(fu, du)
+            col.tick(transitions=1)
+            if np.ma.getmaskarray(per).any():
+                col.violation('C09:ll_per_bin:mask', dict(p, corners='unmasked'), {'masked': int(np.ma.getmaskarray(per).sum())})
     # likelihood auto-folding
     model = dadi.Spectrum(base.copy() / 3.0, pop_ids=ids)
     data = dadi.Spectrum((base[tuple(slice(None, None, -1) for _ in shape)] * 2 % 5).copy(), pop_ids=ids).fold()
